@@ -191,6 +191,110 @@ example :
 end stale
 
 /-!
+## mlink.Cursor: each operation transforms (sequence, position) as documented
+
+`WF h xs`: `xs = 0 :: ids` is the duplicate-free chain from the sentinel to nil, all other cells are
+self-linked; the abstract sequence is `abs h xs`.  A cursor whose `pred` is `p` with
+`xs = pre ++ p :: post` is at position `i = pre.length` (`post = []`: end of list).  For a cursor at
+ANY position of ANY well-formed list (`A := abs h xs`):
+
+* `C10_cursor_push`: `Push v` succeeds, keeps `WF`, the sequence becomes `A.take i ++ v :: A.drop i`
+  and the cursor (same `pred`, same `pre`) is still at position `i`, now on the new element; no cell
+  leaves the chain, so no other cursor is invalidated.  (`Set` at the end of the list is the same
+  heap operation; `Add v` is `Push v; Next`.)
+* `C10_cursor_remove`: on an element, `Remove` returns `A[i]`, the sequence becomes `A.eraseIdx i`,
+  the cursor stays at `i`; the removed cell — the `pred` of exactly the cursors at position `i+1` —
+  is self-linked afterwards (those cursors are stale by `C10_stale_cursor_refuses`), every other
+  cell stays on the chain.  At the end of the list `Remove` returns the zero value and changes
+  nothing.
+* `C10_cursor_truncate`: the sequence becomes `A.take i`, the cursor is at the end, and every cell
+  behind the cursor is self-linked (all cursors at positions `> i` are stale).  `Clear` is
+  `Truncate` at position 0 (`clear_eq_truncate`).
+* `C10_cursor_set`: on an element, `Set v` gives `A.set i v`, nothing else changes.
+* `C10_cursor_read`: `Get` is `A[i]` (zero value at the end), `AtEnd` is `i = |A|`, `Next` moves to
+  position `i+1` and reports whether that is before the end (no move at the end).
+-/
+section cursor
+open MdsVerif.Model MdsVerif.Model.Mlink MdsVerif.Proofs.Mlink
+
+theorem C10_cursor_push (h : Heap) (pre : List Nat) (p : Nat) (post : List Nat) (v : Int)
+    (hw : WF h (pre ++ p :: post)) :
+    ∃ h1 n, push h p v = .ok h1 ∧ WF h1 (pre ++ p :: n :: post) ∧
+      abs h1 (pre ++ p :: n :: post) =
+        (abs h (pre ++ p :: post)).take pre.length ++ v :: (abs h (pre ++ p :: post)).drop pre.length := by
+  obtain ⟨h1, e1, w1, _, v1, v2⟩ := push_wf h pre p post v hw
+  refine ⟨h1, h.size, e1, w1, ?_⟩
+  obtain ⟨t1, t2⟩ := take_drop_split h pre p post
+  rw [t1, t2, (abs_split h1 pre p (h.size :: post)).1, List.map_cons, v1]
+  have hne : ∀ j ∈ pre ++ p :: post, j ≠ h.size := fun j hj e => by
+    have := hw.bound j hj; omega
+  congr 1
+  · apply List.map_congr_left
+    intro j hj
+    exact v2 j (hne j (by have := List.mem_of_mem_tail hj; simp only [List.mem_append, List.mem_singleton] at this; simp only [List.mem_append, List.mem_cons]; rcases this with h | h <;> simp [h]))
+  · congr 1
+    apply List.map_congr_left
+    intro j hj
+    exact v2 j (hne j (by simp [hj]))
+
+theorem C10_cursor_remove (h : Heap) (pre : List Nat) (p t : Nat) (post : List Nat)
+    (hw : WF h (pre ++ p :: t :: post)) :
+    ∃ h1, remove h p = .ok (h1, (abs h (pre ++ p :: t :: post)).getD pre.length 0) ∧
+      WF h1 (pre ++ p :: post) ∧
+      abs h1 (pre ++ p :: post) = (abs h (pre ++ p :: t :: post)).eraseIdx pre.length ∧
+      h1.link t = some t := by
+  obtain ⟨h1, e1, w1, l1, v1, _⟩ := remove_wf h pre p t post hw
+  obtain ⟨a1, a2⟩ := abs_split h pre p (t :: post)
+  have hval : ∀ j, h1.val j = h.val j := fun j => by simp [Heap.val, v1]
+  refine ⟨h1, ?_, w1, ?_, l1⟩
+  · rw [e1, a1, getD_append_at _ _ _ _ a2]; simp
+  · rw [(abs_split h1 pre p post).1, a1, List.eraseIdx_append_of_length_le (by omega), a2, Nat.sub_self]
+    simp only [List.map_cons, List.eraseIdx_cons_zero]
+    congr 1 <;> exact List.map_congr_left (fun j _ => hval j)
+
+theorem C10_cursor_remove_at_end (h : Heap) (pre : List Nat) (p : Nat) (hw : WF h (pre ++ [p])) :
+    remove h p = .ok (h, 0) := remove_end h pre p hw
+
+theorem C10_cursor_truncate (h : Heap) (pre : List Nat) (p : Nat) (post : List Nat)
+    (hw : WF h (pre ++ p :: post)) :
+    ∃ h1, truncate h p = .ok h1 ∧ WF h1 (pre ++ [p]) ∧
+      abs h1 (pre ++ [p]) = (abs h (pre ++ p :: post)).take pre.length ∧
+      ∀ j ∈ post, h1.link j = some j := by
+  obtain ⟨h1, e1, w1, l1, v1, _⟩ := truncate_wf h pre p post hw
+  refine ⟨h1, e1, w1, ?_, l1⟩
+  rw [(take_drop_split h pre p post).1, (abs_split h1 pre p []).1]
+  simp only [List.map_nil, List.append_nil]
+  exact List.map_congr_left (fun j _ => by simp [Heap.val, v1])
+
+theorem C10_cursor_set (h : Heap) (pre : List Nat) (p t : Nat) (post : List Nat) (v : Int)
+    (hw : WF h (pre ++ p :: t :: post)) :
+    ∃ h1, Mlink.set h p v = .ok h1 ∧ WF h1 (pre ++ p :: t :: post) ∧
+      abs h1 (pre ++ p :: t :: post) = (abs h (pre ++ p :: t :: post)).set pre.length v :=
+  ⟨_, set_mid_wf h pre p t post v hw⟩
+
+theorem C10_cursor_read (h : Heap) (pre : List Nat) (p : Nat) (post : List Nat)
+    (hw : WF h (pre ++ p :: post)) :
+    Mlink.get h p = .ok ((abs h (pre ++ p :: post)).getD pre.length 0) ∧
+    atEnd h p = .ok (decide (pre.length = (abs h (pre ++ p :: post)).length)) ∧
+    (post = [] → next h p = .ok (p, false)) ∧
+    (∀ q r, post = q :: r → next h p = .ok (q, !r.isEmpty)) := by
+  obtain ⟨a1, a2⟩ := abs_split h pre p post
+  refine ⟨?_, ?_, ?_, ?_⟩
+  · rw [get_cell h pre p post hw.seg hw.nodup, a1, getD_append_at _ _ _ _ a2]
+    cases post <;> simp
+  · rw [atEnd_cell h pre p post hw.seg hw.nodup, a1, List.length_append, a2]
+    cases post <;> simp
+  · intro e; subst e; exact next_end h pre p hw.seg hw.nodup
+  · intro q r e; subst e; exact next_cell h pre p q r hw.seg hw.nodup
+
+/-- non-vacuity of `WF` and of the position view: the heap built by `End; Add 1 2 3 4` is well formed
+with chain `[0,1,2,3,4]`, and the cursor with `pred = 2` is at position 2 -/
+example : (run {} [.end_ 0, .add 0 [1, 2, 3, 4], .at_ 1 2, .get 1, .remove 1, .each 9]) =
+    [.unit, .unit, .unit, .val 3, .val 3, .list [1, 2, 4]] := by decide
+
+end cursor
+
+/-!
 ## ring.Ring: `Next` and `Prev` stay mutually inverse; no cell is lost or duplicated
 
 `C10_ring_invariant`: after every history of `Of, New, Join, Pop, Next, Prev, At, Peek, Len, Each`
